@@ -44,6 +44,18 @@ Theorem negative_rejected : forall (r c : Z) (ra ca : bool),
 Proof. exact negative_rejected_lemma. Qed.
 Print Assumptions negative_rejected.
 
+Theorem range_negative_rejected : forall r1 c1 r2 c2 : Z,
+  (r1 < 0 \/ c1 < 0 \/ r2 < 0 \/ c2 < 0)%Z -> xl_range r1 c1 r2 c2 = Err IndexError.
+Proof. exact range_negative_rejected_lemma. Qed.
+Print Assumptions range_negative_rejected.
+
+Theorem range_corners : forall r1 c1 r2 c2 : Z,
+  (0 <= r1)%Z -> (0 <= r2)%Z -> (0 <= c1 < 18278)%Z -> (0 <= c2 < 18278)%Z -> (r1, c1) <> (r2, c2) ->
+  exists a b, xl_range r1 c1 r2 c2 = Ok (a ++ [c_colon] ++ b) /\
+              xl_cell_to_rowcol a = Ok (r1, c1) /\ xl_cell_to_rowcol b = Ok (r2, c2).
+Proof. exact range_corners_lemma. Qed.
+Print Assumptions range_corners.
+
 Theorem negative_col_rejected : forall (c : Z) (ca : bool),
   (c < 0)%Z -> xl_col_to_name c ca = Err IndexError.
 Proof. exact negative_col_rejected_lemma. Qed.
